@@ -69,18 +69,27 @@ theorem trunc_spec (f : File) (hw : WFE f) (s o l n : Nat) (hl : f.live s) (hsp 
   · intro s' hs'l hne
     exact ⟨by rw [hdd]; simp [hne], hstep.2 s' hs'l hne⟩
 
-theorem stepOK_trunc (w : World) (hw : WFW w) (h n : Nat) (hsafe : OpSafe w (.trunc h n)) : StepOK w (.trunc h n) := by
+/-- `Htrunc` on a linked-block element is refused and changes nothing (1e2fd75; before, it cut the description record) -/
+theorem htrunc_linked_refused (w : World) (h n : Nat) (a : Acc) (ha : w.acc h = some a) (hsp : a.special = true) :
+    htrunc w h n = (w, .fail) := by
+  simp only [htrunc, ha]
+  split
+  · rfl
+  · first | rfl | rw [if_pos hsp]
+
+theorem stepOK_trunc (w : World) (hw : WFW w) (h n : Nat) : StepOK w (.trunc h n) := by
   cases ha : w.acc h with
   | none => exact stepOK_fail_same w hw _ (by simp [step, htrunc, ha])
   | some a =>
     have hh := hw.handles h a ha
     have he := handle_elem w hw h a ha
-    have hsp0 : a.special = false := hsafe a ha
+    by_cases hfx : a.special = true
+    · exact stepOK_fail_same w hw _ (by show htrunc w h n = _; exact htrunc_linked_refused w h n a ha hfx)
+    have hsp0 : a.special = false := by simpa using hfx
     have hsp' : isSpecial ((w.file a.file).dd a.slot).tag = false := by rw [← hh.special_iff]; exact hsp0
     have hfi := file_lt_of_live w a.file a.slot hh.live
     by_cases hcw : (!a.canWrite) = true
     · exact stepOK_fail_same w hw _ (by simp only [step, htrunc, ha]; rw [if_pos hcw])
-    have hfx : ¬ (w.cfg.fixed = true ∧ a.special = true) := fun c => by rw [hsp0] at c; exact absurd c.2 (by decide)
     cases hx : ((w.file a.file).dd a.slot).ext with
     | none =>
       refine stepOK_fail_same w hw _ ?_
